@@ -150,4 +150,24 @@ def ofStrList (l : List String) : Val := .list (l.map .str)
 def ofFloat (f : Float) : Val := .flt f.toBits
 def ofBool (b : Bool) : Val := .atom (if b then "true" else "false")
 
+/-- a driver handler: (state as a wire value, initially `.list []`) → request arguments → (new state, reply) -/
+abbrev Handler := Val → List Val → Val × Val
+
+def bad (msg : String) : Val := .atom ("bad-op:" ++ msg)
+
+def pairsOf? (v : Val) : Option (List (Nat × Nat)) := do
+  let l ← v.list?
+  l.mapM fun p => do
+    let xs ← p.natList?
+    match xs with
+    | [a, b] => some (a, b)
+    | _ => none
+
+def ofPairs (l : List (Nat × Nat)) : Val := .list (l.map fun (a, b) => ofNatList [a, b])
+
+def matrixVal (M : List (List Int)) : Val := .list (M.map fun r => .list (r.map .int))
+def matrixOf? (v : Val) : Option (List (List Int)) := do
+  let l ← v.list?
+  l.mapM Val.intList?
+
 end Wire
